@@ -35,8 +35,15 @@ fn parse_file(file: &mut SliceFile, ast: &mut Ast, diagnostics: &mut Diagnostics
     let Ok(preprocessed_text) = preprocessor.parse_slice_file(file.raw_text.as_str()) else { return };
 
     // Parse the preprocessed text.
+    let element_count = ast.as_slice().len();
     let parser = Parser::new(&file.relative_path, ast, diagnostics);
-    let Ok((attributes, module, definitions)) = parser.parse_slice_file(preprocessed_text) else { return };
+    let Ok((attributes, module, definitions)) = parser.parse_slice_file(preprocessed_text) else {
+        // The parser adds some elements (fields of enumerators, parameters) to the AST before the elements that contain
+        // them. When parsing fails, those containers are dropped with the parser's stack, and what was already added
+        // would be left pointing at freed memory, so we remove everything this file added to the AST.
+        ast.remove_elements_from(element_count);
+        return;
+    };
 
     // Issue a syntax error if the user had definitions but forgot to declare a module.
     if !definitions.is_empty() && module.is_none() {
